@@ -56,9 +56,10 @@ Print Assumptions C25_is_valid_scan_request_iff.
 
 (* For every configuration and every operation sequence of any length whose received PDUs are byte
    lists, the C25 monitor accepts the model's trace: a PDU is accepted only if the specification
-   admits it for an advertising type in effect (the type of the last advertising PDU handed to the
-   radio, or one proposed by change_advertising since), rejected only if the specification
-   rejects it for one of them, and the reported remote address is the initiator's. *)
+   allows it for the advertising type on air (the type of the last advertising PDU handed to the
+   radio; change_advertising takes effect with the next PDU; only if the advertiser was restarted
+   or timed out since without sending a PDU, also the type proposed then), rejected only if the
+   specification rejects it for that type, and the reported remote address is the initiator's. *)
 Theorem C25_every_history_is_accepted :
   forall (c : cfg) (ops : list op), Forall op_bytes_ok ops -> monitor25 c (run c (init c) ops) = None.
 Proof. exact monitor25_accepts_model. Qed.
@@ -109,6 +110,20 @@ Example C25_monitor_rejects_wrong_answers :
   /\ monitor25 cfg_u [(LStart, OSched (Sched 37 0 0)); (Rx conn_ex, OAcc own_ex)] = Some (1%nat, t_accept_iff)
   /\ monitor25 cfg_u [(LStart, OSched (Sched 37 0 0)); (Rx conn_ex, OAcc peer_ex)] = None
   /\ monitor25 cfg_u [(ScanReq conn_ex, OBool true)] = Some (0%nat, t_static_iff).
+Proof. vm_compute. auto. Qed.
+
+(* change_advertising<>() takes effect with the next PDU: a CONNECT_IND that answers the
+   ADV_NONCONN_IND still on air is rejected by the model (which then advertises ADV_IND), and the
+   monitor rejects an implementation that judges it against the proposed type instead *)
+Definition cfg_m : cfg := mkcfg [TNonConn; TUndirected] false false false 100 2 own_ex (fun _ => true).
+Example C25_request_is_judged_against_the_type_on_air :
+  map snd (run cfg_m (init cfg_m) [LStart; Chg 1; Rx conn_ex; Rx conn_ex])
+    = [OSched (Sched 37 0 2); OSched NoSched; ORej (Sched 38 0 0); OAcc peer_ex]
+  /\ monitor25 cfg_m [(LStart, OSched (Sched 37 0 2)); (Chg 1%nat, OSched NoSched); (Rx conn_ex, OAcc peer_ex)]
+     = Some (2%nat, t_accept_iff)
+  /\ monitor25 cfg_m [(LStart, OSched (Sched 37 0 2)); (Chg 1%nat, OSched NoSched); (Rx conn_ex, ORej (Sched 38 0 0));
+                      (Chg 0%nat, OSched NoSched); (Rx conn_ex, ORej (Sched 39 0 2))]
+     = Some (4%nat, t_accept_iff).
 Proof. vm_compute. auto. Qed.
 
 (* ... and one that fails an assert on a received PDU (what directed advertising did for PDUs
